@@ -410,3 +410,397 @@ def eval_expr_ast(e, st):
     if k == "pow":
         return eval_expr_ast(e[1], st) ** e[2]
     raise ValueError(e)
+
+
+# ---- the check -------------------------------------------------------------------------------
+def gen_programs(ctx, n):
+    out = []
+    tries = 0
+    while len(out) < n and tries < 20 * n + 20:
+        tries += 1
+        g = gen.G(ctx.rng, guard=True, max_depth=1, allow_simult=ctx.rng.random() < 0.3,
+                  n_fin=ctx.rng.randint(1, 2), n_acc=ctx.rng.randint(0, 1))
+        p = g.program()
+        if "multi-assign" in g.features:
+            continue  # C05's known defect (types of renamed versions under a guard) is not this property's subject
+        goals = [("E", m) for m in g.goals(2)]
+        if ctx.rng.random() < 0.5:
+            x = ctx.rng.choice(g.fin + g.acc)
+            goals.append((ctx.rng.choice(["c", "k"]), 2, {x: 1}))
+        out.append((p, goals, "gen:" + "+".join(sorted(g.features))))
+    return out
+
+
+def needed_monos(goals):
+    ms = []
+    for g in goals:
+        for i in range(1, goal_order(g) + 1):
+            m = mono_pow(goal_mono(g), i)
+            if m not in ms:
+                ms.append(m)
+    return ms
+
+
+def typed_envs(r, conds, limit=4096):
+    """all valuations of the variables of the given condition dumps over Polar's finite types"""
+    types = core.numeric_types(r["flat"].get("types", [])) if "unsupported" not in r.get("flat", {}) else {}
+    vs = sorted(set().union(*[cond_dump_vars(c) for c in conds])) if conds else []
+    envs = [[]]
+    for x in vs:
+        if x not in types:
+            return None
+        envs = [e + [(x, val)] for e in envs for val in types[x]]
+        if len(envs) > limit:
+            return None
+    return envs
+
+
+def oracle_case_file(p, ms, NF, N, Gs_ast, envs):
+    body = P.COQ_HEADER.replace("Syntax Sem", "Syntax Sem Types Search AfterLoop")
+    vs = P.prog_vars(p)
+    vl = P.lst(['"%s"' % x for x in vs])
+    body += f"Definition p0 : prog := {P.prog_coq(p)}.\n"
+    body += f"Definition ms0 : list mono := {P.lst([P.mono_coq(m) for m in ms])}.\n"
+    body += f"Eval vm_compute in (exit_moments {vl} p0 ms0 {NF}).\n"
+    body += f"Eval vm_compute in (exit_moments_plain p0 ms0 2).\n"
+    if Gs_ast is not None:
+        body += f"Definition Gs : cond := {P.c_coq(Gs_ast)}.\n"
+        body += f"Eval vm_compute in (event_moments {vl} p0 Gs ms0 {N}).\n"
+        if envs is not None:
+            el = P.lst([P.lst([f'("{x}", {P.q_coq(val)})' for x, val in e]) for e in envs])
+            body += f"Eval vm_compute in [conds_agree {el} (p_guard p0) Gs; conds_agree {el} (stored_guard 8 p0) Gs].\n"
+    return body
+
+
+def ratio_rows(rows, ms, g, n):
+    """exact value of the goal's conditional quantity from the oracle row n, or None if P(event) = 0"""
+    den = rows[n][0]
+    if den == 0:
+        return None
+    k = goal_order(g)
+    raws = {i: rows[n][1 + ms.index(mono_pow(goal_mono(g), i))] / den for i in range(1, k + 1)}
+    return convert(g[0], k, raws)
+
+
+def run(ctx):
+    import oracle
+    ok, log = lib.coq_check_props(ctx)
+    if not ok:
+        ctx.violation("proof-broken", {"theorem": "props/C09.v", "log": log[-3000:]}, "props/C09.v no longer checks", no_input=True)
+        return
+    N = ctx.pick(8, 10)         # exact comparison of the conditional sequence: Polar at n = 1..N+1
+    NF = ctx.pick(24, 40)       # far horizon for the limit (validation)
+    n_prog = ctx.pick(20, 150)
+    progs = shapes()
+    n_shapes = len(progs)
+    progs += gen_programs(ctx, max(0, n_prog - len(progs)))
+    tasks = [{"kind": "afterloop", "text": P.prog_text(p), "goals": [goal_text(g) for g in goals], "nvals": N + 2,
+              "timeout": 150} for p, goals, _ in progs]
+    results = lib.run_tasks(tasks, timeout=150)
+    errs, feats = {}, {}
+    live = []
+    for i, ((p, goals, tag), r) in enumerate(zip(progs, results)):
+        for f in tag.replace("gen:", "").split("+"):
+            if f:
+                feats[f] = feats.get(f, 0) + 1
+        if "error" in r or "exception" in r:
+            k = r.get("etype") or r.get("error") or r["exception"]["etype"]
+            key = f"{r.get('stage', 'task')}:{k}"
+            errs[key] = errs.get(key, 0) + 1
+            if i < n_shapes:
+                ctx.violation(f"refused:{tag}:{key}", {"program_text": P.prog_text(p), "result": r},
+                              f"the --after_loop path fails on the hand-written shape '{tag}' ({key}: "
+                              f"{(r.get('exception') or {}).get('msg', r.get('msg', ''))[:200]})\n{P.prog_text(p)}")
+            continue
+        live.append(i)
+    # ---- exact oracle + guard agreement ------------------------------------------------------
+    ofiles, ometa = [], {}
+    for i in live:
+        p, goals, tag = progs[i]
+        r = results[i]
+        ms = needed_monos(goals)
+        Gs_ast, envs = None, None
+        if r.get("original_loop_guard") is not None and "unsupported" not in r.get("flat", {}):
+            Gs = rename_cond(r["original_loop_guard"], old_copies(r["flat"]))
+            if not any(x.startswith("_") for x in cond_dump_vars(Gs)):
+                Gs_ast = core.cond_to_ast(Gs)
+                envs = typed_envs(r, [Gs, r["source_guard"]])
+        ometa[i] = {"ms": ms, "Gs": Gs_ast, "envs": envs is not None}
+        ofiles.append((f"exit_{i}", oracle_case_file(p, ms, NF, N, Gs_ast, envs)))
+    oouts = lib.coq_run_many(ctx, ofiles, timeout=400)
+    exact = {}
+    for i in live:
+        okc, o = oouts[f"exit_{i}"]
+        rs = oracle.parse_results(o) if okc else []
+        ms = ometa[i]["ms"]
+        if len(rs) < 2 or len(rs[0]) != NF + 1 or any(len(row) != len(ms) + 1 for row in rs[0]):
+            errs["oracle-failed"] = errs.get("oracle-failed", 0) + 1
+            continue
+        if rs[0][:len(rs[1])] != rs[1]:
+            raise RuntimeError("oracle self-check failed: compacted and plain semantics disagree on\n" + P.prog_text(progs[i][0]))
+        bl = lib.parse_bool_list(o)
+        exact[i] = {"rows": rs[0], "event": rs[2] if len(rs) > 2 else None,
+                    "src_agree": bl[0] if bl else None, "model_agree": bl[1] if bl else None}
+    # ---- validators (all n) on Polar's closed forms ------------------------------------------
+    vfiles, vmeta = [], {}
+    for i in live:
+        p, goals, tag = progs[i]
+        r = results[i]
+        try:
+            defs = program_defs(r)
+        except (core.NotModelled, ValueError, KeyError) as e:
+            vmeta[i] = {"unsupported": str(e), "items": []}
+            continue
+        body = EXIT_HEADER + "From Polar Require Import AfterLoopLimit.\n" + defs
+        body += "Eval vm_compute in [check_types fp0 T0].\n"
+        items = []
+        for gi, (g, gr) in enumerate(zip(goals, r["goals"])):
+            for k, part in sorted(gr.get("parts", {}).items()):
+                try:
+                    a = part_terms(r, part, mono_pow(goal_mono(g), int(k)))
+                except (core.NotModelled, ValueError, KeyError) as e:
+                    items.append((gi, int(k), None, str(e)))
+                    continue
+                body += f"Eval vm_compute in (check_exit cm0 fp0 T0 G0 {a['M']} Ss0 {a['N']} {a['D']}).\n"
+                body += f"Eval vm_compute in (option_map qpair (limit_value {a['fN']} {a['fD']})).\n"
+                items.append((gi, int(k), a, None))
+        vmeta[i] = {"items": items}
+        vfiles.append((f"vx_{i}", body))
+    vouts = lib.coq_run_many(ctx, vfiles, timeout=400)
+    valid = {}      # (i, gi, k) -> {"accepted": bool|None, "limit": Fraction|None, "why": str}
+    for i in live:
+        vm = vmeta[i]
+        if f"vx_{i}" not in vouts:
+            for gi, g in enumerate(progs[i][1]):
+                for k in range(1, goal_order(g) + 1):
+                    valid[(i, gi, k)] = {"accepted": None, "limit": None, "why": vm.get("unsupported")}
+            continue
+        okc, o = vouts[f"vx_{i}"]
+        ev = parse_evals(o) if okc else []
+        types_ok = bool(ev) and "true" in ev[0][0]
+        pos = 1
+        for gi, k, a, why in vm["items"]:
+            if a is None:
+                valid[(i, gi, k)] = {"accepted": None, "limit": None, "why": why}
+                continue
+            if not okc or pos + 1 >= len(ev) + 0 and pos + 1 > len(ev) - 0:
+                valid[(i, gi, k)] = {"accepted": None, "limit": None, "why": "coq-error: " + o[-400:]}
+                continue
+            acc = ev[pos][0] == "true"
+            lim = parse_opt_q(ev[pos + 1][0]) if pos + 1 < len(ev) else None
+            pos += 2
+            valid[(i, gi, k)] = {"accepted": acc, "limit": lim, "why": None if acc else ("types-rejected" if not types_ok else "rejected"),
+                                 "types_ok": types_ok}
+    # ---- comparisons ---------------------------------------------------------------------------
+    stat = {"cond_seq_agree": 0, "numden_agree": 0, "exit_validated_all_n": 0, "exit_unsupported": 0, "limit_proved_shape": 0,
+            "limit_validated_far": 0, "limit_not_taken": 0, "divergent_reported_infinite": 0, "undefined_at_n": 0}
+    limit_tasks, limit_meta = [], []
+    pending_b = []
+    for i in live:
+        p, goals, tag = progs[i]
+        r = results[i]
+        text = P.prog_text(p)
+        ex = exact.get(i)
+        ms = ometa[i]["ms"]
+        has_aux = r.get("original_loop_guard") is not None and any(x.startswith("_old") for x in cond_dump_vars(r["original_loop_guard"]))
+        if ex is not None and ex["model_agree"] is False:
+            ctx.violation(f"stored-guard-model:{text}", {"program_text": text, "original_loop_guard": r.get("original_loop_guard_text")},
+                          f"program.original_loop_guard ({r.get('original_loop_guard_text')}) is not the condition the model "
+                          f"AfterLoop.stored_guard predicts (guard & collapsed first-level conditions) on the typed states\n{text}",
+                          no_input=True)
+        for gi, (g, gr) in enumerate(zip(goals, r["goals"])):
+            gname = goal_text(g)
+            order = goal_order(g)
+            if "exception" in gr:
+                key = f"{gr.get('stage')}:{gr['exception']['etype']}"
+                errs[key] = errs.get(key, 0) + 1
+                if i < n_shapes:
+                    ctx.violation(f"refused:{tag}:{gname}:{key}", {"program_text": text, "goal": gname, "result": gr},
+                                  f"{gname} --after_loop fails on the hand-written shape '{tag}' ({key}: {gr['exception']['msg'][:200]})\n{text}")
+                continue
+            ctx.count({"t": text, "g": gname}, nontrivial=ex is not None and any(0 < row[0] < 1 for row in ex["rows"][:N + 1]))
+            if ex is None:
+                continue
+            # (a) the conditional sequence, n = 1..N+1 against the exact value one guard test earlier
+            bad = None
+            for n in range(0 if not has_aux else 1, N + 2):
+                ref_n = n - 1 if n >= 1 else 0
+                want = ratio_rows(ex["rows"], ms, g, ref_n)
+                got = gr["cond_values"][n] if n < len(gr.get("cond_values", [])) else None
+                if want is None:
+                    stat["undefined_at_n"] += 1
+                    continue
+                gv = parse_val(got)
+                if gv is None or gv != want:
+                    bad = (n, got, want, ref_n)
+                    break
+            collapse = ex["src_agree"] is False
+            if bad is None:
+                stat["cond_seq_agree"] += 1
+            else:
+                n, got, want, ref_n = bad
+                sig = f"cond-sequence:{text}:{gname}"
+                if collapse and ex["event"] is not None:
+                    # does Polar's sequence condition on the stored guard instead?
+                    same = True
+                    for m in range(1, N + 2):
+                        w2 = ratio_rows(ex["event"], ms, g, m - 1)
+                        g2 = parse_val(gr["cond_values"][m]) if m < len(gr["cond_values"]) else None
+                        if w2 is not None and g2 != w2:
+                            same = False
+                            break
+                    if same:
+                        sig = KNOWN_COLLAPSE
+                ctx.violation(sig, {"program_text": text, "goal": gname, "n": n, "polar_value": got, "exact_value": str(want),
+                                    "exact_is_at_guard_test": ref_n, "original_loop_guard": r.get("original_loop_guard_text"),
+                                    "polar_sequence": gr.get("cond_values"), "conditional_sequence": gr.get("cond"),
+                                    "stored_guard_equivalent_to_source_guard": ex["src_agree"]},
+                              f"{gname} given termination, program below: cli.common's moment-given-termination sequence gives {got} at n={n}; "
+                              f"the exact conditional value given that the loop has stopped (guard found false at one of the first {n} tests) "
+                              f"is {want}" + (f"; Polar conditions on the negation of {r.get('original_loop_guard_text')}, which is not the loop guard"
+                                              if collapse else "") + f"\n{text}")
+            # numerator / denominator against the exact ones, and ratio consistency
+            nd_ok = True
+            for k, part in sorted(gr.get("parts", {}).items()):
+                if "num_values" not in part:
+                    continue
+                col = 1 + ms.index(mono_pow(goal_mono(g), int(k)))
+                for n in range(1, N + 2):
+                    pn, pd = parse_val(part["num_values"][n]), parse_val(part["den_values"][n])
+                    en, ed = ex["rows"][n - 1][col], ex["rows"][n - 1][0]
+                    rc = parse_val(gr["raw_cond_values"][k][n]) if k in gr.get("raw_cond_values", {}) else None
+                    if pd not in (None, 0) and pn is not None and rc is not None and pn / pd != rc:
+                        nd_ok = False
+                        ctx.violation(f"ratio:{text}:{gname}", {"program_text": text, "goal": gname, "order": k, "n": n, "numerator": str(pn),
+                                                                  "denominator": str(pd), "polar_value": str(rc), "exact_value": str(en / ed) if ed else None},
+                                      f"moment-given-termination of order {k} for {gname} at n={n} is {rc}, but the ratio of the two moment "
+                                      f"polynomials it is built from is {pn}/{pd}; exact value {en / ed if ed else 'undefined'}\n{text}")
+                        break
+                    if (pn, pd) != (en, ed) and not collapse and bad is None:
+                        nd_ok = False
+                        ctx.violation(f"numden:{text}:{gname}", {"program_text": text, "goal": gname, "order": k, "n": n, "polar_num": str(pn),
+                                                                   "polar_den": str(pd), "exact_num": str(en), "exact_den": str(ed)},
+                                      f"{gname}, order {k}, n={n}: E[M 1_stopped] / P(stopped) from get_moment_poly = {pn} / {pd}, exact {en} / {ed}\n{text}")
+                        break
+                if not nd_ok:
+                    break
+            if nd_ok and bad is None:
+                stat["numden_agree"] += 1
+            # all-n validation of numerator / denominator closed forms
+            vs = [valid.get((i, gi, k)) for k in range(1, order + 1)]
+            for k, vv in enumerate(vs, 1):
+                if vv is None or vv["accepted"] is None:
+                    stat["exit_unsupported"] += 1
+                    continue
+                if vv["accepted"] is False and vv.get("why") == "types-rejected":
+                    stat["exit_unsupported"] += 1   # C05's subject (known there): nothing can be validated on unvalidated types
+                    continue
+                ctx.coverage["obligations"] += 1
+                if vv["accepted"]:
+                    ctx.coverage["discharged"] += 1
+                    stat["exit_validated_all_n"] += 1
+                else:
+                    ctx.violation(f"check_exit:{text}:{gname}:{k}", {"program_text": text, "goal": gname, "order": k,
+                                                                      "part": gr["parts"].get(str(k))},
+                                  f"numerator/denominator closed forms of order {k} for {gname} are not validated as E[M 1_(not G')]_n and "
+                                  f"P(not G')_n for all n by AfterLoop.check_exit, although they agree with the exact values for n <= {N + 1}\n{text}",
+                                  no_input=True)
+            # (b) the printed value
+            pv = gr.get("after_loop_value", "")
+            exp = None
+            if all(vv is not None and vv["accepted"] and vv["limit"] is not None for vv in vs):
+                exp = ("val", convert(g[0], order, {k: vs[k - 1]["limit"] for k in range(1, order + 1)}))
+            elif g[0] == "E" and vs[0] is not None and vs[0]["accepted"]:
+                part = gr["parts"]["1"]
+                gn, gd = growth(part["num_cf"]), growth(part["den_cf"])
+                if gn and gd and gn[0] == "inf" and gd[0] == "const" and gd[1] > 0:
+                    exp = ("inf", gn[1])
+            far = [ratio_rows(ex["rows"], ms, g, n) for n in (N, (N + NF) // 2, NF)]
+            pending_b.append({"i": i, "gi": gi, "g": g, "gr": gr, "exp": exp, "far": far, "collapse": collapse and bad is not None,
+                              "text": text, "gname": gname})
+            if pv.startswith("?"):
+                limit_tasks.append({"kind": "limit", "expr": gr["after_loop"], "timeout": 60})
+                limit_meta.append(len(pending_b) - 1)
+    lres = lib.run_tasks(limit_tasks, timeout=60) if limit_tasks else []
+    repaired = {}
+    for idx, lr in zip(limit_meta, lres):
+        repaired[idx] = lr
+    for idx, b in enumerate(pending_b):
+        gr, exp, far, text, gname = b["gr"], b["exp"], b["far"], b["text"], b["gname"]
+        pv = gr.get("after_loop_value", "")
+        shown = gr.get("printed")
+        if pv.startswith("?"):
+            stat["limit_not_taken"] += 1
+            ctx.violation(KNOWN_NO_LIMIT, {"program_text": text, "goal": gname, "printed": shown},
+                          f"--after_loop prints a formula in n instead of the limit: {shown}\n{text}")
+            lr = repaired.get(idx, {})
+            pv = lr.get("limit") or "!unknown"
+            how = f"limit of the printed formula {gr.get('after_loop')} (taken with one integer symbol n)"
+        else:
+            how = f"printed value {shown}"
+        if b["collapse"]:
+            continue   # reported above with the sequence; the printed value is the limit of that sequence
+        val = parse_val(pv)
+        if exp is not None and exp[0] == "val":
+            stat["limit_proved_shape"] += 1
+            if val is None or val != exp[1]:
+                ctx.violation(f"after-loop-value:{text}:{gname}", {"program_text": text, "goal": gname, "printed": shown, "value": pv,
+                                                                    "expected_limit": str(exp[1]), "exact_values_far": [str(x) for x in far],
+                                                                    "n": NF},
+                              f"{gname} after the loop: {how} is {pv}; the validated numerator/denominator closed forms converge to "
+                              f"{exp[1]} (AfterLoopLimit.limit_value_sound); exact conditional values at n = {N}, {(N + NF) // 2}, {NF}: "
+                              f"{', '.join(str(x) for x in far)}\n{text}")
+        elif exp is not None and exp[0] == "inf":
+            want = "!oo" if exp[1] > 0 else "!-oo"
+            grows = all(x is not None for x in far) and abs(far[0]) < abs(far[1]) < abs(far[2])
+            if pv == want and grows:
+                stat["divergent_reported_infinite"] += 1
+            else:
+                ctx.violation(f"after-loop-divergent:{text}:{gname}", {"program_text": text, "goal": gname, "printed": shown, "value": pv,
+                                                                        "exact_values_far": [str(x) for x in far], "n": NF},
+                              f"{gname} after the loop diverges (dominant growing term in the validated numerator; exact conditional values "
+                              f"at n = {N}, {(N + NF) // 2}, {NF}: {', '.join(str(x) for x in far)}) but {how} is {pv}\n{text}")
+        else:
+            # unknown shape: validation against the exact values only
+            if val is not None and all(x is not None for x in far):
+                d = [abs(x - val) for x in far]
+                if d[2] <= d[0]:
+                    stat["limit_validated_far"] += 1
+                else:
+                    ctx.violation(f"after-loop-far:{text}:{gname}", {"program_text": text, "goal": gname, "printed": shown, "value": pv,
+                                                                      "exact_values_far": [str(x) for x in far], "n": NF},
+                                  f"{gname} after the loop: {how} is {pv} but the exact conditional values move away from it: "
+                                  f"n = {N}, {(N + NF) // 2}, {NF}: {', '.join(str(x) for x in far)}\n{text}")
+        if len(ctx.coverage["samples"]) < 6 and exp is not None:
+            ctx.sample({"program": text, "goal": gname, "printed": shown, "conditional_sequence_n1..": gr.get("cond_values", [])[1:6],
+                        "exact_n0..": [str(ratio_rows(exact[b["i"]]["rows"], ometa[b["i"]]["ms"], b["g"], n)) for n in range(0, 5)],
+                        "limit_from_validated_closed_forms": str(exp[1]) if exp[0] == "val" else "infinite"})
+    ctx.coverage["rule"] = (f"{n_shapes} hand-written guarded shapes (one/two-variable guards, inequality guard, collapse of a first-level if, "
+                            "termination a.s. / with probability < 1 / already at the start, constant / state-dependent / divergent exit "
+                            "expectations) + programs from harness/gen.py with guard=True (no multi-assignment); goals: raw moments of degree <= 3, "
+                            f"c2, k2; Polar's conditional sequence at n = 1..{N + 1} vs the exact conditional moments of the SOURCE program "
+                            f"(Sem.run, vm_compute) one guard test earlier; numerator and denominator closed forms validated for all n by "
+                            f"AfterLoop.check_exit; printed value vs AfterLoopLimit.limit_value of the validated closed forms, exact values up "
+                            f"to n = {NF}; non-trivial = 0 < P(stopped) < 1 at some n <= {N}; distinct by (text, goal)")
+    ctx.coverage["feature_histogram"] = feats
+    ctx.coverage["polar_errors"] = errs
+    ctx.coverage["comparison_status"] = stat
+    ctx.coverage["input_distribution"] = {"programs": len(progs), "analysed": len(live), "hand_written": n_shapes,
+                                          "generated": len(progs) - n_shapes, "N": N, "N_far": NF}
+    ctx.coverage["trusted_base"] += [
+        "harness/progast.py printers (the same AST is printed as Polar text and as a Coq term)",
+        "harness/tasks_afterloop.py (arguments built by Polar's own ArgumentParser; goals handled by the real GoalsAction.handle_*_goal)",
+        "harness/exppoly.py decomposition of sympy closed forms (re-evaluated by the validators)",
+        "harness/tasks_core.py structural dump of Polar's flat program, types, original_loop_guard",
+        "sympy substitution of n by integers in Polar's closed forms (values compared with the exact ones)"]
+    ctx.assumptions += [
+        "'the loop has stopped by n' is read as: the guard was found false at one of the first n guard tests (the event Polar's normalised "
+        "program can observe after n iterations of `while true: if G`): Polar's sequence at n >= 1 is compared with the exact conditional "
+        "moments in the state after n-1 iterations (C09_cond_exit_test_shift relates the two readings); the value at n = 0, where Polar "
+        "returns an expression in the undefined initial value of its _old copies, is compared only when the stored guard has no such copy",
+        "programs are sampled; finite discrete programs only (exact oracle by exhaustive enumeration)",
+        f"the limit is proved for closed forms of the shape constant + sum r^n P(n), |r| < 1, rational bases (AfterLoopLimit.limit_value_sound); "
+        f"other shapes are validated against exact values up to n = {NF}",
+        "flat program vs source program (normalisation) is C02's subject; here it is covered by the comparison with the source semantics for "
+        f"n <= {N + 1}; the all-n statement of check_exit is about Polar's flat program started with its _old copies at the smallest value of their type",
+        "C05's known defect (types of renamed versions under a loop guard) is excluded from the generator (no multi-assignment)"]
